@@ -193,6 +193,45 @@ async def via_transport(loop, var, chunks, rbuf, cap, eof='after'):
     return out
 
 
+async def via_messaging(loop, var, messages, cap):
+    """One message per item into a transport built on AbstractMessagingTransport the way the websocket transports do it
+    (parser output goes into the incoming queue), then what next_frame_generator() hands to the receiver."""
+    AM = var.mod('rsocket.transports.abstract_messaging')
+
+    class T(AM.AbstractMessagingTransport):
+        async def send_frame(self, frame):
+            pass
+
+        async def close(self):
+            pass
+
+    tr = T()
+    out = []
+    for msg in messages:
+        n = 0
+        try:
+            async for frame in tr._frame_parser.receive_data(msg, 0):
+                tr._incoming_frame_queue.put_nowait(frame)
+                n += 1
+                if n > len(msg) + 16:
+                    raise Endless()
+        except Endless:
+            raise
+        except Exception:
+            continue  # the real transports end their read loop here; what was queued so far is still read below
+        while not tr._incoming_frame_queue.empty():
+            try:
+                gen = await tr.next_frame_generator()
+            except Exception as e:
+                out.append(('raised', type(e).__name__))
+                continue
+            async for fr in gen:
+                out.append(view(fr))
+                if len(out) > cap + len(messages):
+                    raise Endless()
+    return out
+
+
 info = {}
 
 
@@ -304,6 +343,34 @@ def prop(case):
             if got != want and not (certainly_undecodable(it, b) and got in ([], [INVALID])):
                 out.append(viol('message_output_differs', 'C04:message_output_differs:' + it['kind'], backend=var.name,
                                 n_got=len(got), n_want=len(want)))
+        # message mode through the queue every message transport is built on (AbstractMessagingTransport): what the
+        # endpoint's receiver gets from next_frame_generator() for the same messages
+        if var.name == variants.all_variants()[0].name:
+            try:
+                seq = vloop.run_case(via_messaging, var, bodies, len(items) + 2)
+            except Endless:
+                seq = None
+                out.append(viol('decoder_does_not_terminate', 'C04:endless:message_transport', backend=var.name))
+            if seq is not None:
+                want_seq = []
+                for it, b in zip(items, bodies):
+                    if it['kind'] == 'frame':
+                        want_seq.append(frames.ref_view(refcodec.decode(b)))
+                    else:
+                        iso = isolated(var, b)
+                        if certainly_undecodable(it, b):
+                            iso = INVALID if iso == INVALID else None
+                        if iso is not None:
+                            want_seq.append(iso)
+                raised = [x for x in seq if isinstance(x, tuple) and x[0] == 'raised']
+                if raised:
+                    out.append(viol('message_transport_raised', 'C04:message_transport_raised:%s' % raised[0][1], backend=var.name,
+                                    after=seq.index(raised[0]), n_expected=len(want_seq)))
+                else:
+                    strip = lambda l: [x for x in l if x != INVALID]
+                    if strip(seq) != strip(want_seq):
+                        out.append(viol('message_output_differs', 'C04:message_transport_output_differs', backend=var.name,
+                                        n_got=len(seq), n_want=len(want_seq)))
     info['nt'] = len(items) >= 2 and inside
     kinds = sorted(set(it['kind'] for it in items))
     info['classes'] = ['items=%d' % len(items), 'has_malformed=%s' % any(k != 'frame' for k in kinds),
